@@ -124,7 +124,24 @@ def sc_create(case, ctx):
             "later_column_own": own, "later_column_leaked": leaked}
 
 
-def _view(clr, table, known_old):
+def _sel_fetch(sels, names, nch):
+    """Name-based fetches through GIVEN selector objects (matrix, bins, pixels): per chromosome [rows of bins, rows of pixels,
+    matrix total] or the error class."""
+    out = []
+    for c in range(nch):
+        try:
+            m = sels["matrix"].fetch(names[c])
+            out.append([int(len(sels["bins"].fetch(names[c]))), int(len(sels["pixels"].fetch(names[c]))), project.to_int(m.sum())])
+        except Exception as ex:
+            out.append([-1, -1, -1])
+    return out
+
+
+def _mksels(clr):
+    return {"matrix": clr.matrix(balance=False, sparse=True), "bins": clr.bins(), "pixels": clr.pixels()}
+
+
+def _view(clr, table, known_old, old_sels=None):
     nch = 1 + max(t[0] for t in table)
     names = [str(x) for x in clr.chromnames]
     ct = clr.chroms()[:]
@@ -153,7 +170,9 @@ def _view(clr, table, known_old):
             err = type(ex).__name__
         old.append({"name": nm, "err": err})
     pj = clr.pixels(join=True)[:]
-    return {"join_chroms": [[str(a), str(b)] for a, b in zip(pj["chrom1"], pj["chrom2"])],
+    sel_new = _sel_fetch(_mksels(clr), names, nch)
+    return {"sel_new": sel_new, "sel_old": _sel_fetch(old_sels, names, nch) if old_sels else sel_new,
+            "join_chroms": [[str(a), str(b)] for a, b in zip(pj["chrom1"], pj["chrom2"])],
             "chromnames": names, "chromtable_names": [str(x) for x in ct["name"]],
             "chromlens": project.ints(clr.chromsizes.values),
             "bin_chroms": [str(x) for x in b["chrom"]], "bin_coords": [[int(s), int(e)] for s, e in zip(b["start"], b["end"])],
@@ -202,11 +221,12 @@ def rn_rename(case, ctx):
     sib0 = _raw_rest(path, sib, True) if case.get("sibling") else ""
     clr = cooler.Cooler(uri)
     _view(clr, table, list(names0))           # the live object has been used (joined reads, lookups) before the first renaming
+    old_sels = _mksels(clr)                   # selector objects obtained BEFORE the renamings and used after them
     stages = []
     seen = list(names0)
     for ren in case["renames"]:
         cooler.rename_chroms(clr, {a: b for a, b in ren})
-        live = _view(clr, table, seen)
+        live = _view(clr, table, seen, old_sels)
         reopened = _view(cooler.Cooler(uri), table, seen)
         seen += [b for _, b in ren]
         stages.append({"live": live, "reopened": reopened, "raw_rest": _raw_rest(path, group), "raw": project.raw_uri(uri),
